@@ -271,30 +271,99 @@ Definition m_fill (t : otype) (size : Z) (chunks : list bytes) : memobj :=
 Definition m_fill_late (t : otype) (size : Z) (chunks : list bytes) : memobj :=
   m_set_size (fold_left m_write chunks (m_set_type m_new t)) size.
 
-(* filesystem SetEncodedObject(o): header from o.Type()/o.Size(), one copy of the
-   content, deferred Close (which saves), returns o.Hash().
-   None = the call panics: when WriteHeader fails, the deferred ObjectWriter.Close
-   still runs save(), which calls Hash() on a Writer whose hasher was never set
-   (nil hash.Hash) — observed on the real code, recorded as a known finding. *)
-Definition path_set (f : hfmt) (o : memobj) : option wres :=
-  if otype_eqb (m_t o) TOfsDelta || otype_eqb (m_t o) TRefDelta then Some (mkR None (Some EInvalidType) None)
+(* filesystem SetEncodedObject(o): every type that is not commit/tree/blob/tag is
+   refused up front (ErrInvalidType); then header from o.Type()/o.Size(), one
+   copy of the content, deferred Close (which saves), returns o.Hash().
+   [fd] = the format the DotGit object writer hashes with (names the file),
+   [fo] = the format of the ObjectHasher the MemoryObject was created with
+   (the returned ID): two different fields of the storage, see [fs_state].
+   None = the call panics: when WriteHeader fails (negative size), the deferred
+   ObjectWriter.Close still runs save(), which calls Hash() on a Writer whose
+   hasher was never set (nil hash.Hash) — observed on the real code, recorded
+   as a known finding. *)
+Definition path_set2 (fd fo : hfmt) (o : memobj) : option wres :=
+  if negb (type_git (m_t o)) then Some (mkR None (Some EInvalidType) None)
   else
     match w_header (m_t o) (m_sz o) with
     | Err e => None
     | Ok st =>
       let '(st', e) := w_writes st [m_cont o] in
-      let file := Some (w_hash f st', w_z st') in
+      let file := Some (w_hash fd st', w_z st') in
       match e with
       | Some e => Some (mkR None (Some e) file)
-      | None => Some (mkR (snd (m_hash f o)) None file)
+      | None => Some (mkR (snd (m_hash fo o)) None file)
       end
     end.
+
+Definition path_set (f : hfmt) (o : memobj) : option wres := path_set2 f f o.
 
 (* memory storage SetEncodedObject(o): keyed by o.Hash(), content = o itself *)
 Definition path_mem (f : hfmt) (o : memobj) : wres :=
   let id := snd (m_hash f o) in
   let e := if type_git (m_t o) then None else Some EUnsupportedType in
   mkR id e None.
+
+(* ---------- which format each write path hashes with ----------
+   storage/filesystem: NewStorageWithOptions, Storage.SetObjectFormat,
+   ConfigStorage.Config; storage/memory: NewStorage, Storage.SetObjectFormat.
+   The filesystem storage keeps the format in several places that the write
+   paths read independently: DotGit.options.ObjectFormat (object writer: file
+   name, RawObjectWriter/LazyWriter ID), ObjectStorage.oh (NewEncodedObject:
+   the ID SetEncodedObject / worktree Add return), ObjectStorage.options
+   (loose-object reader), and the configuration (what git sees). *)
+Inductive cfmt := CUnset | CSha1 | CSha256.
+Definition hfmt_of (c : cfmt) : hfmt := match c with CSha256 => FSha256 | _ => FSha1 end.
+Definition cfmt_eqb (a b : cfmt) : bool :=
+  match a, b with CUnset, CUnset | CSha1, CSha1 | CSha256, CSha256 => true | _, _ => false end.
+
+Record fs_state := mkFS {
+  fs_cfg : cfmt;     (* extensions.objectformat as Storage.Config() reports it *)
+  fs_dir : hfmt;     (* DotGit.options.ObjectFormat *)
+  fs_oh : hfmt;      (* ObjectStorage.oh *)
+  fs_opts : hfmt;    (* ObjectStorage.options.ObjectFormat *)
+}.
+
+(* NewStorageWithOptions(fs, cache, Options{ObjectFormat: opt}); [file] = the
+   objectformat of an existing "config" file (which overrides the option, even
+   when it does not mention a format).  Without a file, Config() reports the
+   option unless it is SHA-1. *)
+Definition fs_new (opt : cfmt) (file : option cfmt) : fs_state :=
+  match file with
+  | Some c => mkFS c (hfmt_of c) (hfmt_of c) (hfmt_of c)
+  | None => mkFS (match opt with CSha256 => CSha256 | _ => CUnset end) (hfmt_of opt) (hfmt_of opt) (hfmt_of opt)
+  end.
+
+(* Storage.SetObjectFormat(of), no packs present: only sha1 / sha256 are
+   accepted; nothing happens when the configuration already says [of] *)
+Definition fs_set_format (st : fs_state) (of : cfmt) : fs_state :=
+  match of with
+  | CUnset => st
+  | _ => if cfmt_eqb (fs_cfg st) of then st else mkFS of (hfmt_of of) (hfmt_of of) (hfmt_of of)
+  end.
+
+Definition fs_run (opt : cfmt) (file : option cfmt) (ofs : list cfmt) : fs_state :=
+  fold_left fs_set_format ofs (fs_new opt file).
+
+(* the format the repository is in, as git would see it *)
+Definition last_format (ofs : list cfmt) (dflt : cfmt) : cfmt :=
+  fold_left (fun cur of => match of with CUnset => cur | _ => of end) ofs dflt.
+Definition repo_format (opt : cfmt) (file : option cfmt) (ofs : list cfmt) : hfmt :=
+  hfmt_of (last_format ofs (match file with Some c => c | None => opt end)).
+
+(* memory storage: options.objectFormat and the ObjectHasher *)
+Record ms_state := mkMS { ms_opts : cfmt; ms_oh : hfmt }.
+Definition ms_new (opt : cfmt) : ms_state := mkMS opt (hfmt_of opt).
+Definition ms_set_format (st : ms_state) (of : cfmt) : ms_state :=
+  match of with
+  | CUnset => st
+  | _ => if cfmt_eqb (ms_opts st) of then st else mkMS of (hfmt_of of)
+  end.
+Definition ms_run (opt : cfmt) (ofs : list cfmt) : ms_state := fold_left ms_set_format ofs (ms_new opt).
+
+(* the write paths on a storage in state [st] *)
+Definition st_raw (st : fs_state) := path_raw (fs_dir st).
+Definition st_set (st : fs_state) (o : memobj) := path_set2 (fs_dir st) (fs_oh st) o.
+Definition st_mem (st : ms_state) (o : memobj) := path_mem (ms_oh st) o.
 
 (* ---------- correspondence entry points ---------- *)
 From Coq Require Import String.
@@ -353,6 +422,25 @@ Definition c01_run_write (entry fmt ty : string) (size : Z) (chunks : list strin
   else if String.eqb entry "compute" then OBytes (compute f t (List.concat cs))
   else if String.eqb entry "hasher" then
     OBytes (hasher_sum f (fold_left hasher_write cs (hasher_new t size)))
+  else OErr "entry".
+
+Definition cfmt_of (s : string) : cfmt :=
+  if String.eqb s "sha256" then CSha256 else if String.eqb s "sha1" then CSha1 else CUnset.
+
+(* case with a storage history: constructor option, format of a pre-existing
+   config file ("none" = no file), SetObjectFormat calls, then the write *)
+Definition c01_run_write_st (entry ctor file : string) (switch : list string) (ty : string) (size : Z) (chunks : list string) : out :=
+  let t := type_of ty in let cs := map unhex chunks in
+  let fileo := if String.eqb file "none" then None else Some (cfmt_of file) in
+  let st := fs_run (cfmt_of ctor) fileo (map cfmt_of switch) in
+  let ms := ms_run (cfmt_of ctor) (map cfmt_of switch) in
+  if String.eqb entry "raw" then render_wres (st_raw st t size cs)
+  else if String.eqb entry "lazy" then render_wres (st_raw st t size cs)
+  else if String.eqb entry "set" then render_owres (st_set st (m_fill t size cs))
+  else if String.eqb entry "set_late" then render_owres (st_set st (m_fill_late t size cs))
+  else if String.eqb entry "add" then render_owres (st_set st (m_fill TBlob (blen (List.concat cs)) [List.concat cs]))
+  else if String.eqb entry "mem" then render_wres (st_mem ms (m_fill t size cs))
+  else if String.eqb entry "mem_late" then render_wres (st_mem ms (m_fill_late t size cs))
   else OErr "entry".
 
 (* case: inflated bytes of a loose object -> what objfile.Reader reports *)
